@@ -214,7 +214,14 @@ fn compile_grammar(
     }
 
     let t1 = Instant::now();
+    #[cfg(feature = "verif_hooks")]
+    let verif_before =
+        crate::verif_hooks::optimize_observer_installed().then(|| grammar.verif_dump());
     grammar = grammar.optimize();
+    #[cfg(feature = "verif_hooks")]
+    if let Some(before) = verif_before {
+        crate::verif_hooks::on_optimize(before, grammar.verif_dump());
+    }
 
     if log_grammar {
         write!(
